@@ -19,7 +19,7 @@ Modelling decisions of this sidecar (each listed in props/C06.py ASSUMPTIONS / T
     (always satisfiable; restricts no input).
 """
 from contracts import mapping_c as _M
-from contracts.mapping_c import EXTERNALS, UFUNS, PURE_ATTRS  # noqa: F401
+from contracts.mapping_c import UFUNS, PURE_ATTRS  # noqa: F401
 
 __file_spec__ = [_M.__file__, __file__]
 
@@ -27,6 +27,24 @@ __file_spec__ = [_M.__file__, __file__]
 def spec(f):
     return f
 
+
+def _ext_join(e, args, kw, node, st):
+    """ASSUMED contract of "\\n".join(L) for a list L of str: a str that is a deterministic function of the list (uninterpreted
+    py_join of length and element array).  Nothing else about the text is assumed."""
+    import z3 as _z3
+    from pyvc.values import Unsupported, VList, to_z3
+    if len(args) != 2 or kw or args[0] != "\n" or not isinstance(args[1], VList) or args[1].elems is None or args[1].eshape != ("str",):
+        raise Unsupported('str.join: only "\\n".join(<list of str>) is modelled')
+    L = args[1]
+    f = e.ufun("py_join", _z3.IntSort(), _z3.ArraySort(_z3.IntSort(), _z3.StringSort()), _z3.StringSort())
+    return f(to_z3(L.length), L.elems)
+
+
+_ext_join.pure = True
+
+EXTERNALS = dict(_M.EXTERNALS, **{"str.join": _ext_join,
+                                  "spec.join_nl": lambda e, args, kw, node, st: _ext_join(e, ["\n"] + list(args), kw, node, st)})
+SPEC_EXTERNALS = {"join_nl": "spec.join_nl"}
 
 CLASSES = {k: dict(v) for k, v in _M.CLASSES.items() if k != "LeontisWesthof"}
 CLASSES["BasePair"] = {"kind": "record", "fields": dict(_M.CLASSES["BasePair"]["fields"], lw="enum[LeontisWesthof]")}
@@ -304,17 +322,18 @@ class bpseq_body(_M.generated_bpseq_data):
 
 
 class dot_bracket:
-    """PREFIX contract (up to the final join): the lines are, strand by strand, the header, the strand's sequence and the
-    strand's slice of the dot-bracket text of self.bpseq"""
+    """the text is the newline-join of the lines (ghost result LINES), which are, strand by strand, the header, the strand's
+    sequence and the strand's slice of the dot-bracket text of self.bpseq"""
     target = "Mapping2D3D.dot_bracket"
     params = {"self": "Mapping2D3D"}
     requires = [f"distinct_nucleotides({_R})", "no_self_pairs(self)", "offsets_ok(self)"]
-    stop_before = "return '\\n'.join(result)"
-    ensures = []
-    stop_ensures = [f"len(LINES) == 3 * len({_S})",
-                    f"forall(lambda t: implies(0 <= t and t < len({_S}), LINES[3 * t] == '>strand_' + {_S}[t][0] and LINES[3 * t + 1] == {_S}[t][1]"
-                    f" and LINES[3 * t + 2] == piece(self, self.bpseq_value.dot_bracket.structure, t)))"]
-    stop_ensures_labels = {0: "three-lines-per-strand", 1: "header-sequence-slice"}
+    returns = "str"
+    ghost_returns = {"LINES": "list[str]"}
+    ensures = ["result == join_nl(LINES)",
+               f"len(LINES) == 3 * len({_S})",
+               f"forall(lambda t: implies(0 <= t and t < len({_S}), LINES[3 * t] == '>strand_' + {_S}[t][0] and LINES[3 * t + 1] == {_S}[t][1]"
+               f" and LINES[3 * t + 2] == piece(self, self.bpseq_value.dot_bracket.structure, t)))"]
+    ensures_labels = {0: "text-is-the-join-of-its-lines", 1: "three-lines-per-strand", 2: "header-sequence-slice"}
     raises = []
     modifies = []
     locals = {"result": "list[str]"}
@@ -436,7 +455,7 @@ class strands_body:
         # for i in range(1, len(nucleotides))
         0: {"touches": _NO_ROW_WRITES, "labels": _LAB, "inv": _INV + ["len(FLAT) == POS[i - 1] + 1"]},
         # for k in range(residue.number - previous.number - 1)
-        1: {"touches": _NO_ROW_WRITES, "labels": _LAB, "inv": _INV + ["len(FLAT) == POS[i - 1] + 1 + k"]},
+        1: {"index": "c1", "touches": _NO_ROW_WRITES, "labels": _LAB, "inv": _INV + ["len(FLAT) == POS[i - 1] + 1 + c1"]},
     }
     ghost = [
         {"when": "after", "at": "nucleotides = list(filter(", "label": "filter",
@@ -445,7 +464,8 @@ class strands_body:
          "do": ["let FLAT = snoc(empty('list[str]'), nucleotides[0].one_letter_name)", "let KOF = snoc(empty('list[int]'), 0)",
                 "let OFF = snoc(empty('list[int]'), 0)", "let POS = snoc(empty('list[int]'), 0)", "let ST = snoc(empty('list[int]'), 0)"]},
         {"when": "after", "at": "result.append((residue.chain, [residue.one_letter_name]))", "label": "new-strand",
-         "do": ["let OFF = snoc(OFF, len(FLAT))", "let POS = snoc(POS, len(FLAT))", "let KOF = snoc(KOF, i)",
+         "do": ["assert forall(lambda t, j: implies(0 <= t and t < len(result) - 1 and 0 <= j and j < len(result[t][1]), result[t][1][j] == FLAT[OFF[t] + j] and OFF[t] + j < len(FLAT)))",
+                "let OFF = snoc(OFF, len(FLAT))", "let POS = snoc(POS, len(FLAT))", "let KOF = snoc(KOF, i)",
                 "let FLAT = snoc(FLAT, residue.one_letter_name)", "let ST = snoc(ST, len(result) - 1)",
                 "assert forall(lambda t, j: implies(0 <= t and t < len(result) - 1 and 0 <= j and j < len(result[t][1]), result[t][1][j] == FLAT[OFF[t] + j]))",
                 "assert forall(lambda j: implies(0 <= j and j < len(result[len(result) - 1][1]), result[len(result) - 1][1][j] == FLAT[OFF[len(result) - 1] + j]))"]},
@@ -462,6 +482,84 @@ class strands_body:
     ]
 
 
+class generate_bpseq_numbering(_M.generate_bpseq):
+    """PREFIX variant of the contract of __generate_bpseq (contracts/mapping_c.py; same requires, invariants and ghost steps): the
+    facts about its LOCALS at the final return, in the vocabulary of strands_body - the numbering rule by which the two functions
+    must agree.  NUMBERS: residue -> BPSEQ index, ROWS: the BPSEQ rows [index, name, pair], IMAP: index -> residue."""
+    stop_before = "return (BpSeq("
+    ensures = []
+    ensures_labels = {}
+    stop_ensures = [f"filtered(nucleotides, SRC, {_R})",
+                    "nucs_spacing(self, nucleotides, len(nucleotides), NUMBERS, NEXT)",
+                    "rows_dom(ROWS, NEXT)",
+                    "maps_inverse(NUMBERS, IMAP, NEXT) and nucs_mapped(nucleotides, len(nucleotides), NUMBERS) and nucs_onto(nucleotides, len(nucleotides), IMAP)",
+                    "rows_names(ROWS, IMAP, NEXT)"]
+    stop_ensures_labels = {0: "nucleotides-in-file-order", 1: "bpseq-numbering-rule-and-total-length", 2: "rows-1..N",
+                           3: "numbered-positions-are-the-nucleotides", 4: "names-and-placeholders-at-their-positions"}
+    ghost = _M.generate_bpseq.ghost + [
+        {"when": "before", "at": "return (BpSeq(", "label": "locals",
+         "do": ["let NUMBERS = residue_map", "let IMAP = index_to_residue_map", "let ROWS = result", "let NEXT = i"]}]
+    loops = {k: dict(v, touches=_NO_ROW_WRITES) for k, v in _M.generate_bpseq.loops.items()}
+
+
+# the arithmetic behind "the two functions number alike": two sequences that start alike and grow by the same steps are equal
+LEMMAS = {
+    "same_numbering": {"kind": "smt", "params": ["A", "B", "G", "n", "k"], "shapes": ["list[int]", "list[int]", "list[int]", "int", "int"],
+                       "requires": ["A[0] == B[0] + 1",
+                                    "forall(lambda a: implies(0 <= a and a + 1 < n, A[a + 1] == A[a] + 1 + G[a] and B[a + 1] == B[a] + 1 + G[a]))"],
+                       "decreases": "ite(k > 0, k, 0)",
+                       "steps": ["use same_numbering(A, B, G, n, k - 1) when k > 0"],
+                       "ensures": ["implies(0 <= k and k < n, A[k] == B[k] + 1)"]},
+}
+
+
+@spec
+def strand_lines(m, L, text):
+    """the lines of one per-strand rendering of `text`: per strand the header, the strand's sequence and the strand's slice"""
+    return (len(L) == 3 * len(m.strands_value)
+            and forall(lambda t: implies(0 <= t and t < len(m.strands_value),
+                                         L[3 * t] == ">strand_" + m.strands_value[t][0] and L[3 * t + 1] == m.strands_value[t][1]
+                                         and L[3 * t + 2] == piece(m, text, t))))
+
+
+class all_dot_brackets:
+    """one text per member of self.bpseq.all_dot_brackets, in order; each is the newline-join of the per-strand lines (header,
+    sequence, the strand's slice of that member's structure) - cut per strand exactly like dot_bracket (ghost result LN: the lines)"""
+    target = "Mapping2D3D.all_dot_brackets"
+    params = {"self": "Mapping2D3D"}
+    requires = [f"distinct_nucleotides({_R})", "no_self_pairs(self)", "offsets_ok(self)"]
+    returns = "list[str]"
+    ghost_returns = {"LN": "list[list[str]]"}
+    _ADB = "self.bpseq_value.all_dot_brackets"
+    ensures = [f"len(result) == len({_ADB})",
+               "len(LN) == len(result) and forall(lambda d: implies(0 <= d and d < len(result), result[d] == join_nl(LN[d])))",
+               f"forall(lambda d: implies(0 <= d and d < len(LN), strand_lines(self, LN[d], {_ADB}[d].structure)))"]
+    ensures_labels = {0: "one-text-per-dot-bracket", 1: "text-is-the-join-of-its-lines", 2: "lines-are-header-sequence-slice-per-strand"}
+    raises = []
+    modifies = []
+    locals = {"dot_brackets": "list[str]", "result": "list[str]"}
+    loops = {
+        # for dot_bracket in self.bpseq.all_dot_brackets
+        0: {"index": "c0", "touches": _NO_ROW_WRITES, "labels": {0: "one-text-per-member-so-far", 1: "text-is-the-join-of-its-lines", 2: "lines-per-strand"},
+            "inv": ["len(dot_brackets) == c0 and len(LN) == c0",
+                    "forall(lambda d: implies(0 <= d and d < c0, dot_brackets[d] == join_nl(LN[d])))",
+                    f"forall(lambda d: implies(0 <= d and d < c0, strand_lines(self, LN[d], {_ADB}[d].structure)))"]},
+        # for i, pair in enumerate(self.strands_sequences)
+        1: {"index": "c", "touches": _NO_ROW_WRITES,
+            "inv": ["len(result) == 3 * c",
+                    f"forall(lambda t: implies(0 <= t and t < c, result[3 * t] == '>strand_' + {_S}[t][0] and result[3 * t + 1] == {_S}[t][1]"
+                    f" and result[3 * t + 2] == piece(self, dot_bracket.structure, t)))"]}}
+    ghost = [{"when": "before", "at": "for dot_bracket in self.bpseq.all_dot_brackets", "label": "no-texts-yet", "do": ["let LN = empty('list[list[str]]')"]},
+             {"when": "before", "at": "result.append(f'>strand_{chain}')", "label": "lines-before", "do": ["let R0 = result"]},
+             {"when": "after", "at": "result.append(dbns[i])", "label": "three-lines-added",
+              "do": ["assert len(result) == len(R0) + 3 and forall(lambda j: implies(0 <= j and j < len(R0), result[j] == R0[j]))",
+                     f"assert result[3 * c] == '>strand_' + {_S}[c][0] and result[3 * c + 1] == {_S}[c][1]"
+                     f" and result[3 * c + 2] == piece(self, dot_bracket.structure, c)"]},
+             {"when": "after", "at": "dot_brackets.append('\\n'.join(result))", "label": "text-added",
+              "do": [f"assert dot_bracket == {_ADB}[c0] and strand_lines(self, result, dot_bracket.structure)",
+                     "let LN = snoc(LN, result)"]}]
+
+
 CONTRACTS = {
     "Residue3D.is_connected": _M.is_connected,
     "Mapping2D3D.__generate_bpseq": _M.generate_bpseq,
@@ -474,4 +572,6 @@ CONTRACTS = {
     "Mapping2D3D.bpseq@body": bpseq_body,
     "Mapping2D3D.dot_bracket": dot_bracket,
     "Mapping2D3D.strands_sequences@body": strands_body,
+    "Mapping2D3D.all_dot_brackets": all_dot_brackets,
+    "Mapping2D3D.__generate_bpseq@numbering": generate_bpseq_numbering,
 }
